@@ -280,4 +280,56 @@ theorem mid_out_step {p : Params} {own : Own} {P : List Occ} {B : Book} {oc : Oc
       createFold_credits_of _ _ _ _ _ _ _ _ (Or.inr (Or.inr (Nat.lt_succ_self j)))]
     exact (hfresh oc.bm j).1
 
+-- ------------------------------------------------------------------ the local invariants hold for every `Mid`
+
+/-- `locG_after_outputs` for the outputs from index `j` on -/
+theorem locG_after_outputs_from {p : Params} {own : Own} {t : Tx} {bm : BlockMeta} {B : Book} (os : List Out) (j : Nat)
+    (hG : LocGx t.id B) (hfresh : ∀ j', lookupU B.L t.id j' = none) :
+    LocG (foldIdx (depositB own t bm) os j (foldIdx (createB p own t bm) os j B)) := by
+  intro u hu hd
+  rw [(depositFold_L own t bm os j _).1] at hu
+  by_cases hne : u.tx = t.id
+  · rcases createFold_origin p own t bm os j B u hu with h | ⟨m, o, hm, ho, h2, h3, h4, h5⟩
+    · exact absurd ⟨hne, rfl⟩ (lookupU_none (hfresh u.idx) u h)
+    · have := depositFold_game own t bm os j (foldIdx (createB p own t bm) os j B) m o u.wallet u.change hm ho
+        (by rw [← h4]; exact hd)
+      unfold UCoin.gameKey
+      rw [h2, h3, h4, h5]; exact this
+  · apply depositFold_game_mono
+    rw [createFold_game]
+    rcases createFold_origin p own t bm os j B u hu with h | ⟨m, o, hm, ho, h2, _⟩
+    · exact hG u h hne hd
+    · exact absurd h2 hne
+
+set_option linter.unusedVariables false in
+theorem mid_loc_all {p : Params} {own : Own} {P : List Occ} {B : Book} {oc : Occ}
+    (hL : Loc p own B) (hG : LocG B) (hW : LocW B) (hGl : Glob own P B) (h2 : Glob2 P B) (hV : OccValid own P oc)
+    (k j : Nat) :
+    Loc p own (Mid p own B oc k j) ∧ LocG (Mid p own B oc k j) ∧ LocW (Mid p own B oc k j) := by
+  have hfresh := glob_fresh hGl hV
+  -- the spend part
+  have hS : ∃ S : Book, Mid p own B oc k j =
+        foldIdx (depositB own oc.t oc.bm) (oc.t.outs.drop j) j (foldIdx (createB p own oc.t oc.bm) (oc.t.outs.drop j) j S) ∧
+      Loc p own S ∧ LocG S ∧ LocW S ∧
+      (∀ bm j', S.credits ⟨oc.t.id, bm, j'⟩ = none ∧ lookupU S.L oc.t.id j' = none) ∧
+      (∀ gk : GameKey, gk.tx = oc.t.id → S.game gk = none) := by
+    refine ⟨if oc.t.cb then B else foldIdx (spendB p oc.t oc.bm) (oc.t.ins.drop k) k B, rfl, ?_⟩
+    by_cases hcb : oc.t.cb = true
+    · rw [if_pos hcb]
+      exact ⟨hL, hG, hW, fun bm j' => ⟨(hfresh bm j').1, (hfresh bm j').2.1⟩, (glob2_fresh h2 hV.1).2⟩
+    · rw [if_neg hcb]
+      obtain ⟨hLS, hGS⟩ := spendFold_loc (p := p) (own := own) (t := oc.t) (bm := oc.bm) (oc.t.ins.drop k) k B hL hG
+      refine ⟨hLS, hGS, spendFold_locW _ _ _ hW,
+        spendFold_freshCL _ _ _ (fun bm j' => ⟨(hfresh bm j').1, (hfresh bm j').2.1⟩), ?_⟩
+      intro gk hk
+      rw [spendFold_game_of _ _ _ _ _ _ _ (by rw [hk]; exact glob_L_ne hGl hV.1)]
+      exact (glob2_fresh h2 hV.1).2 gk hk
+  obtain ⟨S, hM, hLS, hGS, hWS, hFS, hGmS⟩ := hS
+  rw [hM]
+  obtain ⟨hLC, _⟩ := createFold_loc (p := p) (own := own) (t := oc.t) (bm := oc.bm) (oc.t.outs.drop j) j S hLS
+    (hGS.toLocGx _) (fun j' _ => hFS oc.bm j')
+  have hdl := depositFold_L own oc.t oc.bm (oc.t.outs.drop j) j (foldIdx (createB p own oc.t oc.bm) (oc.t.outs.drop j) j S)
+  exact ⟨hLC.congr hdl.1 hdl.2.1, locG_after_outputs_from _ _ (hGS.toLocGx _) (fun j' => (hFS oc.bm j').2),
+    locW_outputs _ _ hWS hGmS⟩
+
 end MW.Lemmas.Ledger
